@@ -187,6 +187,16 @@ def single_fault_mutants(wf):
                 nd[j] = "ghost_task"
                 m["tasks"][t]["next"][i]["do"] = nd
                 yield ("undefined_target", "%s.next[%d].do[%d]" % (t, i, j), "tasks.%s.next[%d].do" % (t, i), m)
+    # (a') a task definition removed: every transition that names it must be reported
+    for t in tasks:
+        refs = [(src, i) for src in tasks if src in reach and src != t
+                for i, tr in enumerate(wf["tasks"][src].get("next") or []) if t in rd.norm_do(tr.get("do"))]
+        if len(refs) >= 2 and t in reach:
+            m = copy.deepcopy(wf)
+            del m["tasks"][t]
+            for (src, i) in refs:
+                yield ("undefined_target_multi", "%s removed; %s.next[%d]" % (t, src, i),
+                       "tasks.%s.next[%d].do" % (src, i), m)
     # (b) a task named like an engine command
     for r in RESERVED:
         m = copy.deepcopy(wf)
@@ -213,6 +223,23 @@ def single_fault_mutants(wf):
             sites.append(("tasks.%s.next[%d].publish" % (t, i), ("tasks", t, "next", i, "publish")))
     sites.append(("vars", ("vars",)))
     sites.append(("output", ("output",)))
+    # (f) forward reference inside one ordered list: entry i reads a variable only a later entry assigns
+    for form in ("<% ctx(later_var) %>", "{{ ctx('later_var') }}"):
+        m = copy.deepcopy(wf)
+        m["vars"] = list(m.get("vars") or []) + [{"first_var": 1}, {"injected": form}, {"later_var": 2}]
+        yield ("forward_reference", "vars <- " + form, "vars", m)
+        for t in tasks:
+            if t not in reach:
+                continue
+            for i, tr in enumerate(wf["tasks"][t].get("next") or []):
+                if isinstance(tr.get("publish"), str):
+                    continue
+                m = copy.deepcopy(wf)
+                pub = list(m["tasks"][t]["next"][i].get("publish") or [])
+                m["tasks"][t]["next"][i]["publish"] = pub + [{"first_var": 1}, {"injected": form}, {"later_var": 2}]
+                yield ("forward_reference", "%s.next[%d].publish <- %s" % (t, i, form),
+                       "tasks.%s.next[%d].publish" % (t, i), m)
+                break
     for path, loc in sites:
         for cls, exprs in (("broken_grammar", list(BROKEN.values())), ("unassigned_variable", UNASSIGNED)):
             for e in exprs:
